@@ -117,6 +117,15 @@ def leaf_cases():
             else:
                 body = "#[cglue_trait]\npub trait %s { fn m(&mut self, a0: u32) -> Result<%s, %s>; }" % (tn, a, b)
             out.append(("Result<%s, %s> in %s position" % (a, b, pos), tn, body + "\n" + probes(tn, pos == "ret", False)))
+    # the same shapes spelled with a path: `Option`/`Result` are recognised by their last segment
+    qual = [("core_opt_arg", "fn m(&self, a0: core::option::Option<u32>) -> u64;"), ("abs_opt_arg", "fn m(&mut self, a0: ::core::option::Option<u64>, a1: u8) -> u64;"),
+            ("std_opt_arg", "fn m(&self, a0: std::option::Option<P2>) -> u64;"), ("std_res_arg", "fn m(&self, a0: std::result::Result<u32, i32>) -> u64;"),
+            ("abs_res_arg", "fn m(&self, a0: ::core::result::Result<u64, u8>) -> u64;"), ("core_opt_ret", "fn m(&self, a0: u8) -> core::option::Option<u32>;"),
+            ("std_res_ret", "fn m(&mut self, a0: u8) -> std::result::Result<u32, i32>;"), ("abs_res_ret", "fn m(&self) -> ::core::result::Result<P2, u8>;"),
+            ("std_opt_ref_arg", "fn m(&self, a0: std::option::Option<&u64>) -> u64;")]
+    for name, sig in qual:
+        tn = "Ql_" + name
+        out.append(("qualified-path spelling: " + sig, tn, "#[cglue_trait]\npub trait %s { %s }" % (tn, sig) + "\n" + probes(tn, "&mut self" in sig, False)))
     # int_result attribute combinations: trait-level plain + method-level alias and the reverse.
     # A user alias of Result is only recognisable where an int_result(Alias) attribute names it.
     combos = [
@@ -231,6 +240,28 @@ pub extern "C" fn l_ret_cresult() -> CResult<u8, Pod> { CResult::Ok(0) }
 pub extern "C" fn l_ret_sliceref() -> CSliceRef<'static, u8> { CSliceRef::from("") }
 """
 
+# the vtables of the traits cglue makes compatible itself (::ext): passed by value so that the lint looks at every entry
+EXT_PROBES = """pub trait VtblOf { type V; }
+impl<'a, T, V, C, R> VtblOf for cglue::trait_group::CGlueTraitObj<'a, T, V, C, R> { type V = V; }
+macro_rules! vprobe { ($n:ident, $t:ty) => { pub extern "C" fn $n(_v: <$t as VtblOf>::V) {} }; }
+vprobe!(v_clone, cglue::ext::core::clone::CloneBox<'static>);
+vprobe!(v_asref, cglue::ext::core::convert::AsRefBox<'static, u64>);
+vprobe!(v_asmut, cglue::ext::core::convert::AsMutBox<'static, P2>);
+vprobe!(v_display, cglue::ext::core::fmt::DisplayBox<'static>);
+vprobe!(v_debug, cglue::ext::core::fmt::DebugBox<'static>);
+vprobe!(v_octal, cglue::ext::core::fmt::OctalBox<'static>);
+vprobe!(v_lowerhex, cglue::ext::core::fmt::LowerHexBox<'static>);
+vprobe!(v_upperhex, cglue::ext::core::fmt::UpperHexBox<'static>);
+vprobe!(v_pointer, cglue::ext::core::fmt::PointerBox<'static>);
+vprobe!(v_binary, cglue::ext::core::fmt::BinaryBox<'static>);
+vprobe!(v_lowerexp, cglue::ext::core::fmt::LowerExpBox<'static>);
+vprobe!(v_upperexp, cglue::ext::core::fmt::UpperExpBox<'static>);
+vprobe!(v_future, cglue::ext::core::future::FutureBox<'static, u64>);
+vprobe!(v_future_unit, cglue::ext::core::future::FutureArcBox<'static, ()>);
+vprobe!(v_stream, cglue::ext::futures::stream::StreamBox<'static, u64>);
+vprobe!(v_sink, cglue::ext::futures::sink::SinkBox<'static, u64, u8>);
+"""
+
 TASK_PROBES = """use cglue::task::CRefWaker;
 pub extern "C" fn l_crefwaker(_v: CRefWaker<'static>) {}
 pub extern "C" fn l_crefwaker_ref(_v: &CRefWaker<'static>) {}
@@ -255,6 +286,7 @@ def main():
     cases.append(("generic / lifetime / unwrapped / wrap_with traits and a generic group", "Extra", EXTRA))
     cases.append(("library wrapper types", "Lib", LIB_PROBES))
     cases.append(("task types", "Task", TASK_PROBES))
+    cases.append(("vtables of the built-in ::ext traits (clone, convert, fmt, future, stream, sink)", "Ext", EXT_PROBES))
     # AliasRes variant needs the alias ret
     meta = []
     mods = []
@@ -290,7 +322,7 @@ edition = "2021"
 [workspace]
 
 [dependencies]
-cglue = { path = "/repo/cglue", features = ["task"] }
+cglue = { path = "/repo/cglue", features = ["task", "futures"] }
 gluert = { path = "/verif/gluert" }
 vmon = { path = "/verif/vmon" }
 """
